@@ -23,9 +23,27 @@ func (r *ReadFS) OpenFile(path string, flag experimentalsys.Oflag, perm fs.FileM
 	default: // sys.O_RDONLY (integer zero) so we are ok!
 	}
 
+	// Opening must not change a read-only file system either: truncation is
+	// refused, and O_CREAT may only open what already exists.
+	if flag&experimentalsys.O_TRUNC != 0 {
+		return nil, experimentalsys.EROFS
+	}
+	creat := flag&experimentalsys.O_CREAT != 0
+	excl := flag&experimentalsys.O_EXCL != 0
+	if creat {
+		flag &^= experimentalsys.O_CREAT | experimentalsys.O_EXCL
+	}
+
 	f, errno := r.FS.OpenFile(path, flag, perm)
 	if errno != 0 {
+		if creat && errno == experimentalsys.ENOENT {
+			return nil, experimentalsys.EROFS
+		}
 		return nil, errno
+	}
+	if creat && excl {
+		_ = f.Close()
+		return nil, experimentalsys.EEXIST
 	}
 	return &readFile{f}, 0
 }
